@@ -747,7 +747,11 @@ pub fn run_check(check: &Check, o: &Opts) -> i32 {
     for p in &check.required_probes {
         if o.only_family.is_none() && o.runs_override.is_none() && probes.get(*p).copied().unwrap_or(0) == 0 {
             eprintln!("HARNESS ERROR: required probe `{p}` was never hit in this batch");
-            exit = exit.max(2);
+            // a reported violation stays a violation (exit 1): the change that broke the property
+            // may well be what silenced the probe
+            if exit != 1 {
+                exit = exit.max(2);
+            }
         }
     }
     let wall = t0.elapsed().as_secs_f64();
